@@ -252,13 +252,16 @@ def _check_zc_live(case):
 RATE = 1000
 BASE = (3, -2, 4, -1, 5, 0, 2, -4, 1, 1, 3, 3, -4, -1, 5, -3) * 2  # 32 samples, 0.032 s
 TG_GRID = (0, 8, 10, 11, 16, 24, 32)
+# (a constant offset with two sign changes; one sign change; one zero sample: most boundaries are many search windows away from a crossing)
+SPARSE = ((5,) * 10 + (-5,) * 12 + (5,) * 10, (7,) * 27 + (-7,) * 5, (4,) * 3 + (0,) + (4,) * 28)
 
 
 def _check_tgzc(case):
     ivs, pts, adjP, adjI = case[:4]
     ivs2, pts2 = case[4] if len(case) > 4 else (None, None)  # a second interval tier and a second point tier (None: absent)
-    n = len(BASE)
-    w = mkwav(BASE, 2, RATE)
+    rec = SPARSE[case[6]] if len(case) > 6 else BASE     # recordings whose crossings are far from most boundaries
+    n = len(rec)
+    w = mkwav(rec, 2, RATE)
     spec = [("w", "I", [(a / RATE, b / RATE, "ab"[i]) for i, (a, b) in enumerate(ivs)]),
             ("p", "P", [(t / RATE, "P%d" % i) for i, t in enumerate(pts)])]
     if pts2 is not None:
@@ -270,7 +273,7 @@ def _check_tgzc(case):
     for nm, kind, E in spec:
         tg.addTier((IT if kind == "I" else PT)(nm, E, 0, end))
     st, r, _ = guarded(praatio_scripts.tgBoundariesToZeroCrossings, tg.new(), w, adjP, adjI)
-    tag = f"tgBoundariesToZeroCrossings (textgrid 0..{end}, recording 0..{n / RATE}) tiers={[(nm, [tuple(e) for e in E]) for nm, _, E in spec]} adjustPointTiers={adjP} adjustIntervalTiers={adjI}"
+    tag = f"tgBoundariesToZeroCrossings (textgrid 0..{end}, recording 0..{n / RATE}{'' if rec is BASE else ' samples ' + str(rec)}) tiers={[(nm, [tuple(e) for e in E]) for nm, _, E in spec]} adjustPointTiers={adjP} adjustIntervalTiers={adjI}"
     if st == "hang":
         return 1, "hang", None, [Viol("non-termination", tag)]
     if st == "exc":
@@ -285,7 +288,7 @@ def _check_tgzc(case):
 
     def cross(t):
         i = t * RATE
-        return abs(i - round(i)) < 1e-6 and is_crossing(BASE, round(i))
+        return abs(i - round(i)) < 1e-6 and is_crossing(rec, round(i))
     for nm, kind, E in spec:
         if nm not in got:
             continue
@@ -472,6 +475,14 @@ def parts(tier):
                 for pts in ((), (end,), (end - 1,)):
                     for adjP, adjI in ((True, True), (False, True), (True, False)):
                         yield (ivs, pts, adjP, adjI, (None, None), end)
+
+        # recordings with few crossings: the nearest crossing of a boundary lies beyond the first search window (2 ms = 2 samples here) - it is found
+        # all the same (or the call raises); boundaries sent to one and the same crossing may make the call raise a praatio error
+        for ri in range(len(SPARSE)):
+            for ivs in D.interval_sets(TG_GRID, 2):
+                for pts in ((), (16,), (0, 32), (8, 24)):
+                    for adjP, adjI in ((True, True), (False, True), (True, False)):
+                        yield (ivs, pts, adjP, adjI, (None, None), 32, ri)
 
     def gen_splice():
         for ivs in D.interval_sets(SP_GRID, 2):
